@@ -111,7 +111,13 @@ def compare(case, src, out, rec=None):
             if so[fld] != oo[fld]:
                 tag = "+dequant-lut-quant-merged-but-left-on-cpu" if (fld == "code" and so["code"] == "QUANTIZE" and oo["code"] in ("EXP", "LOG")) else ""
                 raise Violation("C11/op-changed/%s%s" % (fld, tag), "operator %d (%s): %s %r -> %r" % (k, label, fld, so[fld], oo[fld]), case)
-        if (so["options"] or (None, None)) != (oo["options"] or (None, None)):
+        def _norm(o):
+            # no option table and an empty / all-default-free table of the operator's own kind are the same thing
+            if o is None or not o[1]:
+                return None
+            return o
+
+        if _norm(so["options"]) != _norm(oo["options"]):
             a, b = so["options"] or (None, {}), oo["options"] or (None, {})
             diff = {f: (a[1].get(f), (b[1] or {}).get(f)) for f in (a[1] or {}) if (a[1] or {}).get(f) != (b[1] or {}).get(f)} if a[0] == b[0] else (a[0], b[0])
             raise Violation("C11/op-changed/options", "operator %d (%s): option table differs: %s" % (k, label, diff), case)
